@@ -247,3 +247,55 @@ func DiffParser(r *hx.Result, drv *model.Driver, gen string, b []byte) string {
 	}
 	return impl.Outcome
 }
+
+// RandHTTP returns a mostly-valid HTTP request as tile38's readNextHTTPCommand understands it
+// (request line, headers up to Content-Length / Authorization / websocket upgrade, body).
+func RandHTTP(rng *rand.Rand) []byte {
+	methods := []string{"GET", "GET", "GET", "POST", "POST", "OPTIONS", "PUT", "get", ""}
+	paths := []string{"/ping", "/", "/SET+k+id+POINT+1+2", "/set%20k%20id%20string%20%22a%20b%22", "/GET+k+id", "/SET+k+id+STRING+\"", "/scan+k+limit+%31",
+		"/%zz", "/%4", "/a%", "ping", "", "/{\"a\":1}", "/SET+k+id+STR%C4%B0NG+\"v\"", "/output+json", "/+", "/%00", "/set k id"}
+	protos := []string{"HTTP/1.1", "HTTP/1.1", "HTTP/1.0", "HTTP/2.0", "HTTP/1.1 x"}
+	sp := []string{"", " ", "  ", "\t", " \t ", "\u00a0", "\u2003", "\u0085", "\xa0", "\v"}
+	var sb strings.Builder
+	sb.WriteString(methods[rng.Intn(len(methods))] + " " + paths[rng.Intn(len(paths))] + " " + protos[rng.Intn(len(protos))] + "\r\n")
+	body := ""
+	if rng.Intn(2) == 0 {
+		body = []string{"+fleet+h1+POINT+10+20", " fleet h1 POINT 10 20", "", " \"q\"", "x"}[rng.Intn(5)]
+	}
+	nh := rng.Intn(5)
+	for i := 0; i < nh; i++ {
+		switch rng.Intn(10) {
+		case 0, 1, 2:
+			cl := strconv.Itoa(len(body))
+			switch rng.Intn(8) {
+			case 0:
+				cl = interesting[rng.Intn(len(interesting))]
+			case 1:
+				cl = strconv.Itoa(len(body) + rng.Intn(5) - 2)
+			}
+			name := []string{"Content-Length", "content-length", "CONTENT-LENGTH", "Content-Length ", "Content-Lengt"}[rng.Intn(5)]
+			sb.WriteString(name + ":" + sp[rng.Intn(len(sp))] + cl + sp[rng.Intn(len(sp))] + "\r\n")
+		case 3:
+			sb.WriteString("Authorization: " + RandArg(rng, 3) + "\r\n")
+		case 4:
+			sb.WriteString("Accept-Encoding: gzip\r\n")
+		case 5:
+			sb.WriteString("Upgrade:" + sp[rng.Intn(len(sp))] + []string{"websocket", "WebSocket", "webSoc\u212aet", "h2c", ""}[rng.Intn(5)] + sp[rng.Intn(len(sp))] + "\r\n")
+		case 6:
+			sb.WriteString("Sec-WebSocket-Version: " + []string{"13", "12", "14", "x", "", "18446744073709551615", "18446744073709551616", "9223372036854775808"}[rng.Intn(8)] + "\r\n")
+		case 7:
+			sb.WriteString("Sec-WebSocket-Key:" + sp[rng.Intn(len(sp))] + []string{"dGhlIHNhbXBsZSBub25jZQ==", "", "k"}[rng.Intn(3)] + "\r\n")
+		case 8:
+			sb.WriteString([]string{"Host: x", "NoColonHeader", ": empty", "X-Content-Length: 5", "Content-Length", "\tfolded"}[rng.Intn(6)] + "\r\n")
+		default:
+			sb.WriteString("Host: localhost\r\n")
+		}
+	}
+	sb.WriteString("\r\n")
+	sb.WriteString(body)
+	b := []byte(sb.String())
+	if rng.Intn(3) == 0 {
+		b = Mutate(rng, b)
+	}
+	return b
+}
